@@ -122,9 +122,12 @@ C18_UnknownHarmless(r) == NamesUnknown(r) =>
 (***************************************************************************)
 (* C12 - stopping the server reaps its children and every parent finds out *)
 (*   scn.how   "terminate" | "sigterm"                                      *)
-(*   scn.kids  sequence of [state, persistent, parent] : state of the child *)
-(*             at the moment of the stop: "coop" "swallow" "idle"           *)
-(*             "finished" "inctx" "starting";  parent "T" iff a real        *)
+(*   scn.racer "none" | the phase of a worker start-up that is in progress  *)
+(*             when the stop arrives                                         *)
+(*   scn.kids  sequence of [state, parent] : state of the child at the      *)
+(*             moment of the stop: "coop" "swallow" (target running),        *)
+(*             "idle" "finished" "inctx" (idle in a context) "inctx-coop"    *)
+(*             "inctx-swallow" "starting";  parent "T" iff a real            *)
 (*             parent-side worker object exists (scripted clients: "F")     *)
 (*   obs.srv_dead "T"/"F"   the server process is gone                       *)
 (*   obs.left     number of former descendants of the server (recorded      *)
@@ -134,7 +137,7 @@ C18_UnknownHarmless(r) == NamesUnknown(r) =>
 (*                call did not return within the bound); error: "WTE" |      *)
 (*                "None" | "other:<Type>"; blocked "T" iff any call hung     *)
 (***************************************************************************)
-LiveAtStop(k) == k.state \in {"coop", "swallow", "idle", "inctx"}
+LiveAtStop(k) == k.state \in {"coop", "swallow", "idle", "inctx", "inctx-coop", "inctx-swallow"}
 C12_Reaped(r) == /\ r.obs.srv_dead = "T"
                  /\ r.obs.left = 0
                  /\ \A k \in 1..Len(r.obs.kids) : r.obs.kids[k].os_dead = "T"
@@ -143,11 +146,16 @@ C12_ParentsKnow(r) == \A k \in 1..Len(r.scn.kids) :
                             /\ r.obs.kids[k].wait = "T"
                             /\ r.obs.kids[k].alive = "F"
                             /\ r.obs.kids[k].has_error = "T"
-\* a WorkerTerminatedError if the child was able to report, nothing otherwise (never a foreign error);
-\* a cooperative child asked to stop by terminate() is able to report
+\* "a WorkerTerminatedError if the child was able to report": never a foreign error; and a child that reacts to
+\* the termination request IS able to report when the server is stopped by terminate() in an orderly way, i.e.
+\* no start-up is in progress and at most two other children have to be waited out (1 s each) within the
+\* parent's 5 s (otherwise the SIGTERM handler may legitimately kill it before it reports)
+SwallowCount(r) == Cardinality({k \in 1..Len(r.scn.kids) : r.scn.kids[k].state \in {"swallow", "inctx-swallow"}})
+AbleToReport(r, k) == /\ r.scn.how = "terminate" /\ r.scn.racer = "none" /\ SwallowCount(r) <= 2
+                      /\ r.scn.kids[k].state \in {"coop", "idle", "inctx", "inctx-coop"}
 C12_ErrorKind(r) == \A k \in 1..Len(r.scn.kids) :
                        (r.scn.kids[k].parent = "T" /\ LiveAtStop(r.scn.kids[k])) =>
                           /\ r.obs.kids[k].error \in {"WTE", "None"}
-                          /\ (r.scn.how = "terminate" /\ r.scn.kids[k].state \in {"coop", "idle", "inctx"}) => r.obs.kids[k].error = "WTE"
+                          /\ AbleToReport(r, k) => r.obs.kids[k].error = "WTE"
 C12_NoParentBlock(r) == \A k \in 1..Len(r.scn.kids) : r.scn.kids[k].parent = "T" => r.obs.kids[k].blocked = "F"
 =============================================================================
